@@ -303,7 +303,7 @@ def options_fields(ctx, chains):
     return res
 
 
-def options_behaviour(ctx, chains, res):
+def options_behaviour(ctx, chains, res, keys=None):
     """the options go into the REAL task (create_tcp_client_task_with_options, loopback TCP, no hook): a silent peer, every
     request times out; with the documented limit L the connection is dropped after every L-th timeout in a row, without
     a limit never"""
@@ -325,10 +325,15 @@ def options_behaviour(ctx, chains, res):
         line, mcase = sc.finish()
         cfg, script = line.split('|', 1)
         items.append((ch, L, k, f'{cfg.strip()} chain={chain_text(ch)} |{script}', mcase))
-    return judge_behaviour(ctx, items)
+    return judge_behaviour(ctx, items, keys)
 
 
-def judge_behaviour(ctx, items):
+KEYS12 = ('C12.timeout-limit-set-through-the-options-builder-not-in-force', 'C12.task-built-from-the-options-differs-from-the-model',
+          'correspondence:options-reach-the-real-task')
+
+
+def judge_behaviour(ctx, items, keys=None):
+    k_spec, k_model, k_obl = keys or KEYS12
     impl = ctx.harness('lifecycle', [it[3] for it in items], shards=8, timeout=900)
     if cl.MODEL_OK:
         mod = ctx.coq_eval(cl.REQUIRES, 'eval_case', [cl.to_coq(it[4]) for it in items], case_type='case', per_shard=100)
@@ -339,25 +344,25 @@ def judge_behaviour(ctx, items):
     for (ch, L, k, line, mcase), i, m in zip(items, impl, mod):
         parts = i.split('|')
         spec, other = [], []
-        if i == 'PANIC' or len(parts) != 6:
+        if i == 'PANIC' or len(parts) != 7:
             spec.append('panic-or-garbled-output')
         else:
-            ls, comp, fin, accepts, tmo, gaps = parts
+            ls, comp, fin, accepts, tmo, gaps, _ = parts
             ls = ls.split()
             ntmo = len([c for c in comp.split() if c.endswith(':Timeout')])
             want = ntmo // L if L else 0          # every L-th timeout in a row (silent peer: all in a row) drops the connection
             drops += ls.count('lW20000000') + ls.count('lW40000000')
             nw = len([x for x in ls if x[:2] == 'lW'])
             if nw != want:
-                spec.append('C12.timeout-limit-set-through-the-options-builder-not-in-force')
+                spec.append(k_spec)
             if m is not None:
                 mp = cl.parse(cl.canon(m))
                 mls = [t.split('@')[0] for t in mp['task'] if t[0] == 'l']
                 mcomp = ' '.join(f'c{c[0]}:{c[1]}' for c in sorted(mp['comp']))
                 if mls != ls or mcomp != comp or mp['done'] != fin.startswith('done'):
-                    other.append('C12.task-built-from-the-options-differs-from-the-model')
+                    other.append(k_model)
             if tmo:
-                other.append('C12.' + tmo.replace(' ', '-'))
+                other.append(k_spec.split('.')[0] + '.' + tmo.replace(' ', '-'))
         why = spec + other
         if why:
             bad += 1
@@ -366,7 +371,7 @@ def judge_behaviour(ctx, items):
                 ctx.violation(why[0], f'ClientOptions::default().{calls} (documented limit {L or None}), silent peer, {k} requests [{line}]: {", ".join(why)}; impl={i} model={m}',
                               {'behaviour': [[chain_text(ch), L, k, line, cl.case_json(mcase)]], 'impl': i, 'model': m, 'why': why},
                               no_failing_input=not spec)
-    ctx.oblige('correspondence:options-reach-the-real-task', bad == 0, f'{bad} of {len(items)} scenarios')
+    ctx.oblige(k_obl, bad == 0, f'{bad} of {len(items)} scenarios')
     return drops
 
 
@@ -409,7 +414,7 @@ def gen_c12(r, quick):
     cases += gen_slow_write(r, 40 if quick else 300)
     cases += gen_second_connection(r, 40 if quick else 300)
     cases += gen_carry_over(r, 120 if quick else 400)
-    for c, exp in cl.gen_parked(r):          # the transmit side: bounded by the timeout from its start; the reply deadline counts from its end
+    for c, exp in cl.gen_parked(r) + cl.gen_large(r):          # large replies behind stale frames in one read chunk; the transmit side: bounded by the timeout from its start; the reply deadline counts from its end
         cases.append(c)
         if exp:
             EXPECT[cl.to_line(c)] = exp
@@ -451,6 +456,8 @@ def run(ctx):
                 nexp += 1
                 if nexp == 1:
                     key = 'C12.timely-reply-on-a-new-connection-not-accepted' if wt is not None and wc == 'Ok' and rid == 1 and exp.get(0, ('', 0))[0] == 'Io' else 'C12.outcome-at-the-deadline-boundary'
+                    if any(st[0] == 'FL' for st in c[1]):
+                        key = 'C12.reply-completed-before-the-deadline-but-the-request-did-not-succeed'
                     if any(st[0] == 'WP' for st in c[1]):
                         key = 'C12.transmission-or-reply-deadline-of-a-parked-write-not-as-required'
                     ctx.violation(key, f'script {cl.to_line(c)}: request {rid} must complete with {wc} at t={wt}, the implementation reports {g}; impl={i}',
